@@ -142,6 +142,37 @@ pub mod uri {
 	pub fn tokens(s: &Str) -> impl Iterator<Item = u8> + '_ {
 		s.iter().copied()
 	}
+	/// Comparisons with byte strings (URI family only).
+	pub fn extra_str_eq(kind: super::Kind, t: &[u8], u: &str) -> Vec<(&'static str, bool)> {
+		use super::Kind;
+		let ub = u.as_bytes();
+		let mut v = Vec::new();
+		match kind {
+			Kind::Ri => {
+				let r = Ri::new(t).ok().unwrap();
+				let o = RiBuf::new(t.to_vec()).ok().unwrap();
+				v.push(("Uri==[u8]", *r == *ub));
+				v.push(("Uri==&[u8]", *r == ub));
+				v.push(("UriBuf==[u8]", o == *ub));
+				v.push(("UriBuf==&[u8]", o == ub));
+			}
+			Kind::RiRef => {
+				let r = RiRef::new(t).ok().unwrap();
+				let o = RiRefBuf::new(t.to_vec()).ok().unwrap();
+				v.push(("UriRef==[u8]", *r == *ub));
+				v.push(("UriRef==&[u8]", *r == ub));
+				v.push(("UriRefBuf==[u8]", o == *ub));
+				v.push(("UriRefBuf==&[u8]", o == ub));
+			}
+			Kind::Path => {
+				let r = Path::new(t).ok().unwrap();
+				v.push(("Path==[u8]", *r == *ub));
+				v.push(("Path==&[u8]", *r == ub));
+			}
+			_ => {}
+		}
+		v
+	}
 	/// Borrow views that only exist in the URI family: a URI seen as an IRI / IRI reference.
 	pub fn extra_views(t: &[u8], probs: &mut Vec<(String, String)>) {
 		use std::borrow::Borrow;
@@ -252,6 +283,9 @@ pub mod iri {
 		s.chars()
 	}
 	pub fn extra_views(_t: &[u8], _probs: &mut Vec<(String, String)>) {}
+	pub fn extra_str_eq(_kind: super::Kind, _t: &[u8], _u: &str) -> Vec<(&'static str, bool)> {
+		Vec::new()
+	}
 	/// Routes that only exist in the IRI family: the from-bytes constructors.
 	pub fn extra_routes(kind: super::Kind, b: &[u8], expect: bool, probs: &mut Vec<(String, String)>, n: &mut u64) {
 		let mut k = 0u64;
